@@ -1,6 +1,7 @@
 import PcfgVerif.Model.OmenTrainer
 import PcfgVerif.Model.OmenProb
 import PcfgVerif.Model.OmenFiles
+import PcfgVerif.Model.OmenCount
 import PcfgVerif.Drive.Omen
 /-! Driver commands for the trainer / scorer side of OMEN (C11, C18). -/
 namespace Drive.OmenTrainer
@@ -47,6 +48,22 @@ def showRows {α : Type} (f : α → String) (rows : List (List α)) : String :=
 def showCp (cp : List (Str × List (Nat × List Char))) : String :=
   ";".intercalate (cp.flatMap fun e => e.2.map fun g => s!"{showStr e.1}@{g.1}={showStr g.2}")
 
+/-- `_calc_level` on hardware doubles (the same formula: `floor(-log(count / total * factor + 1e-11))`, clamped) -/
+def floatLvl (maxLevel : Nat) (base total factor : Nat) : Nat :=
+  let probi := Float.ofNat base / Float.ofNat total * Float.ofNat factor + 0.00000000001
+  let level := Float.floor (-1.0 * Float.log probi)
+  if level > Float.ofNat maxLevel then maxLevel else if level < 0.0 then 0 else level.toUInt64.toNat
+
+def showCounts (t : CTables) : String :=
+  let es := t.entries.map fun e =>
+    s!"{showStr e.key}:{e.ip}:{e.ep}:{e.cp}:" ++ ",".intercalate (e.next.map fun p => s!"{p.1.toNat}={p.2}")
+  s!"e={";".intercalate es} ln={",".intercalate (t.lnCounts.map toString)} tot={t.ipTotal},{t.epTotal},{t.lnTotal}"
+
+def showLevels (t : TTables) : String :=
+  let es := t.entries.map fun e =>
+    s!"{showStr e.key}:{e.ipLevel}:" ++ ",".intercalate (e.next.map fun p => s!"{p.1.toNat}={p.2}")
+  s!"lv={";".intercalate es} lns={",".intercalate (t.lns.map toString)}"
+
 def showLvl : Option Nat → String
   | some n => toString n
   | none => "-1"
@@ -83,6 +100,15 @@ def step (st : St) : List String → St × String
       | some gs => (st, s!"n={gs.length}")
       | none => (st, "raise")
     | _, _ => (st, "bad-op")
+  | "oc.train" :: size :: ng :: maxLen :: pws =>
+    -- the OMEN half of the trainer on the whole list: alphabet, counts, levels; the tables become the current ones
+    match size.toNat?, ng.toNat?, maxLen.toNat?, pws.mapM parseStr with
+    | some size, some ng, some maxLen, some ps =>
+      let alphabet := alphabetOf size ng ps
+      let ct := countTables alphabet ng 1 maxLen ps
+      let tt := ct.toTTables (floatLvl 10) ng 10
+      ({ t := tt }, s!"a={showStr alphabet} {showCounts ct} {showLevels tt}")
+    | _, _, _, _ => (st, "bad-op")
   | "of.load" :: ml :: ng :: rest =>
     -- the guesser's `load_rules` on the records of IP.level | CP.level | LN.level (sections separated by `|`)
     match ml.toNat?, ng.toNat? with
